@@ -110,6 +110,10 @@ def _worker(args):
             for sig, msg in res:
                 viols.append((sig, msg, pin(case, sig) if pin else case, seed))
     finally:
+        sim.account_time()
+        st.simtime = sim.simtime_total
+        st.ops = sim.ops_total          # measured by the simulator itself
+        st.sims = sim.sims_total
         sim.close()
         faulthandler.cancel_dump_traceback_later()
     return st, viols, harness, done
@@ -358,8 +362,10 @@ def run_check(pid, tier, master_seed, jobs, n_override=None, wall_override=None)
 def write_evidence(mod, pid, tier, seed, st, done, wall_s, nviol, known_sigs, jobs):
     d = os.path.join(VERIF, 'evidence')
     os.makedirs(d, exist_ok=True)
+    ep = getattr(mod, 'EVAL_PROBE', None)
     cov = {
-        'evaluations': int(done),
+        'evaluations': int(st.probes.get(ep, done)) if ep else int(done),
+        'scenarios': int(done),
         'distinct_nontrivial': len(st.distinct),
         'rule': mod.RULE,
         'samples': st.samples[:4] or [{'note': 'no sample recorded'}],
